@@ -376,6 +376,8 @@ pub fn catalogue(big: bool, seed_pattern: u64) -> Vec<Desc> {
         c.push(Desc::WmCore(v.clone()));
         c.push(Desc::Wm(v));
     }
+    // A core with all 64 levels (only the core: the wavelet matrix proper keeps a table with max + 1 entries).
+    c.push(Desc::WmCore(vec![1 << 63, 5, (1 << 63) + 7, 0]));
     for b in bits_catalogue(big).into_iter().skip(2) {
         c.push(Desc::RankSup(b.clone()));
         c.push(Desc::SelSup(b.clone()));
